@@ -226,6 +226,36 @@ C16_DEFINE_ROUTES(nohash, c16::nohash_policy)
 C16_DEFINE_ROUTES(vmap, c16::vmap_policy)
 C16_DEFINE_ROUTES(ind, c16::ind_policy)
 
+// Unresolvable calls that throw (thr_policy).
+namespace c16 {
+namespace reg_thr {
+struct gap_key;
+struct amb_key;
+using gap = method<gap_key, int(virtual_<Animal&>), thr_policy>;
+using amb = method<amb_key, int(virtual_<Animal&>, virtual_<Animal&>), thr_policy>;
+static int gap_dog(Dog& d) {
+    return 50200 + d.tag;
+}
+static int amb_da(Dog& a, Animal& b) {
+    return 51000 + a.tag + b.tag;
+}
+static int amb_ad(Animal& a, Dog& b) {
+    return 52000 + a.tag + b.tag;
+}
+static use_classes<Animal, Dog, Cat, Bulldog, thr_policy> classes;
+static gap::add_function<gap_dog> g1;
+static amb::add_function<amb_da> a1;
+static amb::add_function<amb_ad> a2;
+} // namespace reg_thr
+} // namespace c16
+
+extern "C" C16_NOINLINE int c16_errcall_uni__thr(c16::Animal* a) {
+    return c16::reg_thr::gap::fn(*a);
+}
+extern "C" C16_NOINLINE int c16_errcall_multi__thr(c16::Animal* a, c16::Animal* b) {
+    return c16::reg_thr::amb::fn(*a, *b);
+}
+
 // The foreign policy registers the same std_rtti classes and one method, so
 // that update<foreign_policy>() does real work while the routes run.
 namespace c16 {
